@@ -8,6 +8,7 @@ import (
 	"encoding/json"
 	"fmt"
 	"math"
+	"math/big"
 	"testing"
 
 	"github.com/paulmach/orb"
@@ -143,6 +144,29 @@ func ownCentre(t T) orb.Point {
 	return orb.Point{(m.Min[0] + m.Max[0]) / 2, (m.Min[1] + m.Max[1]) / 2}
 }
 
+// boundVariadic (class L4): the tileBuffer argument passed as a caller-owned
+// slice `xs...` - empty with spare capacity, and {0} with spare capacity (what
+// Center uses) - gives the same bound as the plain call and leaves the slice's
+// elements as they were; a write into the spare capacity is only noted.
+func boundVariadic(t T, plain orb.Bound) error {
+	mt := t.orb()
+	backing := [4]float64{0, 7.25, 7.25, 7.25}
+	for n := 0; n <= 1; n++ {
+		xs := backing[:n:4]
+		if got := mt.Bound(xs...); got != plain {
+			return fmt.Errorf("Bound(xs...) with %d-element xs of %v is %v, Bound() is %v", n, t, got, plain)
+		}
+		if n == 1 && math.Float64bits(backing[0]) != 0 {
+			return fmt.Errorf("Bound(xs...) of %v changed the caller's xs[0] from 0 to %v", t, backing[0])
+		}
+		if backing[n] != (map[int]float64{0: 0, 1: 7.25})[n] || backing[2] != 7.25 || backing[3] != 7.25 {
+			stats.Class("layout-note:Bound wrote into the spare capacity of its variadic argument")
+			backing = [4]float64{0, 7.25, 7.25, 7.25}
+		}
+	}
+	return nil
+}
+
 // polarCentre reports whether the (valid) tile belongs to the input family of
 // the known finding "maptile-center-polar-clamp": zoom >= 21, row not the
 // top/bottom row, centre latitude beyond +-85.0511. It is decided by the
@@ -255,6 +279,9 @@ func checkTile(t T, centreOnly bool) error {
 	var seen [2][2]bool
 	b := mt.Bound()
 	if err := boundMatchesModel(t, b); err != nil {
+		return err
+	}
+	if err := boundVariadic(t, b); err != nil {
 		return err
 	}
 	var midLon, midLat float64
@@ -429,7 +456,7 @@ func checkRange(c Case) error {
 	if !c.CIZR {
 		return nil
 	}
-	if c.ZS < t.Z || c.ZE < c.ZS || c.ZE-t.Z > 7 {
+	if c.ZS < t.Z || c.ZE < c.ZS || c.ZE-t.Z > 12 {
 		return fmt.Errorf("harness: bad zoom range %d..%d for %v", c.ZS, c.ZE, t)
 	}
 	got := maptile.ChildrenInZoomRange(mt, maptile.Zoom(c.ZS), maptile.Zoom(c.ZE))
@@ -480,6 +507,43 @@ func checkRange(c Case) error {
 	return nil
 }
 
+// exactColumn (class L6): the column of a longitude is floor((lon+180)/360 * 2^z)
+// (the last column for lon = 180), computed exactly in rationals. Only the
+// rounding of the division by 360 can move a point across a column edge, an
+// error below 2^-50 of the world width, so the exact column is demanded unless
+// the exact position is within 2^(z-50) tile widths of an integer.
+func exactColumn(lon float64, z uint32, got T) error {
+	// fast path: a float estimate of the position (error below 1e-6 tile widths for z <= 30) that is
+	// farther than 1e-4 from every column edge decides the column without rationals
+	if f := (lon + 180) / 360 * float64(pow2(z)); f-math.Floor(f) > 1e-4 && math.Ceil(f)-f > 1e-4 {
+		if uint64(got.X) == uint64(f) {
+			return nil
+		}
+		return fmt.Errorf("At(lon %v, zoom %d) gives column %d, the position is %v", lon, z, got.X, f)
+	}
+	pos := new(big.Rat).SetFloat64(lon)
+	pos.Add(pos, big.NewRat(180, 1))
+	pos.Mul(pos, new(big.Rat).SetFrac(new(big.Int).Lsh(big.NewInt(1), uint(z)), big.NewInt(360)))
+	fl := new(big.Int).Div(pos.Num(), pos.Denom()) // floor: pos >= 0
+	frac := new(big.Rat).Sub(pos, new(big.Rat).SetInt(fl))
+	eps := new(big.Rat).SetFrac(big.NewInt(1), new(big.Int).Lsh(big.NewInt(1), uint(50-z)))
+	col := fl.Uint64()
+	last := pow2(z) - 1
+	cands := []uint64{min(col, last)}
+	if frac.Cmp(eps) < 0 && col > 0 {
+		cands = append(cands, min(col-1, last))
+	}
+	if new(big.Rat).Sub(big.NewRat(1, 1), frac).Cmp(eps) < 0 {
+		cands = append(cands, min(col+1, last))
+	}
+	for _, c := range cands {
+		if uint64(got.X) == c {
+			return nil
+		}
+	}
+	return fmt.Errorf("At(lon %v, zoom %d) gives column %d, the exact column is %v (position %s)", lon, z, got.X, cands, pos.FloatString(12))
+}
+
 // own tile fractions of a point
 func modelFracX(lon float64, z uint32) float64 { return (lon + 180) / 360 * float64(pow2(z)) }
 
@@ -499,6 +563,9 @@ func checkPoint(lon, lat float64, z uint32) error {
 	}
 	b := mt.Bound()
 	if err := boundMatchesModel(t, b); err != nil {
+		return err
+	}
+	if err := exactColumn(lon, z, t); err != nil {
 		return err
 	}
 	if !(lon >= b.Min[0]-tolContain && lon <= b.Max[0]+tolContain) {
@@ -824,6 +891,9 @@ func drawRange(rt *rapid.T) (Case, bool) {
 			maxD := uint32(4)
 			if rapid.IntRange(0, 9).Draw(rt, "deep") == 0 {
 				maxD = 6
+				if rapid.IntRange(0, 19).Draw(rt, "deeper") == 0 {
+					maxD = 8 // rare large class: up to 65536 (87381 with the levels above) tiles
+				}
 			}
 			maxD = min(maxD, maxZoom-a.Z)
 			ds := rapid.Uint32Range(0, maxD).Draw(rt, "ds")
